@@ -301,3 +301,136 @@ pub fn run_case(line: &str) -> String {
     let _ = host(); // binds the EPMD stand-in outside the runtime's block_on
     runtime().block_on(run_script(cfg_flags, peer_flags, connect, early, steps))
 }
+
+
+/// domain `hsk` (C04 over the socket): `hsk <namehex> <cookiehex> <flags> <creation> <challenge> ;; action ;; ...`
+/// The peer executes its actions right after accepting: `W<hex>` write these bytes, `Z<ms>` pause, `X` close the
+/// socket; without `X` it keeps the socket open until the client is done.  The client connects with a 400 ms timeout.
+/// Output: `res=<ok|e:kind|eof|timeout> state=<state> connected=<0|1> send=<ok|err class> after=<0|some> wrote=<hex>`
+pub fn run_hsk(line: &str) -> String {
+    let mut parts = line.split(" ;; ");
+    let head = parts.next().expect("head");
+    let mut t = Toks::new(head);
+    assert_eq!(t.next(), "hsk");
+    let name = String::from_utf8(unhex(t.next())).expect("name");
+    let cookie = String::from_utf8(unhex(t.next())).expect("cookie");
+    let flags: u64 = t.num();
+    let creation: u32 = t.num();
+    let challenge: u32 = t.num();
+    let actions: Vec<String> = parts.map(|s| s.to_string()).collect();
+    let host = host().to_string();
+    runtime().block_on(async move {
+        let listener = TcpListener::bind((host.as_str(), 0)).await.expect("bind peer");
+        PEER_PORT.store(listener.local_addr().unwrap().port(), Ordering::SeqCst);
+        let got: Arc<Mutex<Vec<u8>>> = Arc::new(Mutex::new(Vec::new()));
+        let got2 = got.clone();
+        let (done_tx, done_rx) = tokio::sync::oneshot::channel::<()>();
+        let peer = tokio::spawn(async move {
+            let Ok((s, _)) = listener.accept().await else { return };
+            let (mut rd, mut wr) = s.into_split();
+            let reader = tokio::spawn(async move {
+                let mut buf = vec![0u8; 65536];
+                loop {
+                    match rd.read(&mut buf).await {
+                        Ok(0) | Err(_) => break,
+                        Ok(n) => got2.lock().unwrap().extend_from_slice(&buf[..n]),
+                    }
+                }
+            });
+            let mut closed = false;
+            for a in &actions {
+                match a.as_bytes().first() {
+                    Some(b'W') => {
+                        if wr.write_all(&unhex(&a[1..])).await.is_err() {
+                            break;
+                        }
+                        let _ = wr.flush().await;
+                    }
+                    Some(b'Z') => tokio::time::sleep(Duration::from_millis(a[1..].parse().expect("ms"))).await,
+                    Some(b'X') => {
+                        closed = true;
+                        break;
+                    }
+                    _ => panic!("bad peer action {a}"),
+                }
+            }
+            if closed {
+                // end of the peer's stream (FIN); it keeps reading, so what the client still writes is recorded
+                let _ = wr.shutdown().await;
+            }
+            let _ = done_rx.await;
+            drop(wr);
+            let _ = tokio::time::timeout(Duration::from_millis(500), reader).await;
+        });
+        let config = ConnectionConfig::new(name, format!("peer@{host}"), cookie)
+            .with_epmd_host(host.clone())
+            .with_flags(DistributionFlags::new(flags))
+            .with_creation(edp_client::types::Creation(creation))
+            .with_timeout(Duration::from_millis(400));
+        let mut conn = Connection::new(config);
+        edp_client::digest::verif::clear_challenges();
+        edp_client::digest::verif::push_challenge(challenge);
+        let t0 = std::time::Instant::now();
+        let r = tokio::time::timeout(Duration::from_millis(5000), conn.connect()).await;
+        let elapsed = t0.elapsed();
+        edp_client::digest::verif::clear_challenges();
+        let res = match &r {
+            Err(_) => "HUNG".to_string(),
+            Ok(Ok(())) => "ok".to_string(),
+            Ok(Err(e)) => match e {
+                Error::Io(_) | Error::ConnectionClosed | Error::UnexpectedEof { .. } => "eof".to_string(),
+                Error::Timeout(_) => "timeout".to_string(),
+                Error::InvalidStateTransition { .. } => "e:trans".to_string(),
+                Error::NodeNameTooLong { .. } => "e:namelen".to_string(),
+                Error::InvalidHandshakeMessage(_) => "e:invalid".to_string(),
+                Error::ConnectionRefused { .. } => "e:refused".to_string(),
+                Error::InvalidStateMessage(_) => "e:nochallenge".to_string(),
+                Error::AuthenticationFailed => "e:auth".to_string(),
+                Error::MessageTooLarge { .. } => "toolarge".to_string(),
+                _ => "e:other".to_string(),
+            },
+        };
+        // small writes may sit in the client's socket until the previous one is acknowledged (Nagle): wait until the
+        // number of bytes the peer has seen stops changing
+        async fn settle_bytes(got: &Arc<Mutex<Vec<u8>>>) {
+            let mut last = usize::MAX;
+            let mut same = 0;
+            for _ in 0..60 {
+                tokio::time::sleep(Duration::from_millis(25)).await;
+                let n = got.lock().unwrap().len();
+                if n == last {
+                    same += 1;
+                    if same >= 4 {
+                        return;
+                    }
+                } else {
+                    same = 0;
+                    last = n;
+                }
+            }
+        }
+        settle_bytes(&got).await;
+        let wrote = got.lock().unwrap().clone();
+        let to = erltf::types::ExternalPid::new(erltf::types::Atom::new(format!("peer@{host}")), 1, 0, 1);
+        let send = match conn.send_message(to.clone(), to, OwnedTerm::Atom(erltf::types::Atom::new("hello"))).await {
+            Ok(()) => "ok".to_string(),
+            Err(e) => format!("err {}", err_class(&e)),
+        };
+        settle_bytes(&got).await;
+        let after = got.lock().unwrap().len() - wrote.len();
+        let out = format!(
+            "res={} state={} connected={} send={} after={} slow={} wrote={}",
+            res,
+            conn.state().as_str(),
+            if conn.is_connected() { 1 } else { 0 },
+            send,
+            if after == 0 { "0" } else { "some" },
+            if elapsed > Duration::from_millis(2500) { 1 } else { 0 },
+            hex(&wrote)
+        );
+        let _ = conn.close().await;
+        let _ = done_tx.send(());
+        let _ = tokio::time::timeout(Duration::from_millis(1000), peer).await;
+        out
+    })
+}
